@@ -53,6 +53,12 @@ namespace RecInt
         rand(a.Value);
         return a;
     }
+
+    // a is set to a random value drawn from the generator g (may be negative!)
+    template <size_t K, class Generator> inline rint<K>& rand(rint<K>& a, Generator& g) {
+        rand(a.Value, g);
+        return a;
+    }
 }
 
 #endif
